@@ -161,6 +161,7 @@ fn main() {
             "co" => coerce_case(&p[1], &p[2], if p.len() > 3 { &p[3] } else { "" }),
             "nt" => native_case(p[1].parse().unwrap(), &p[2]),
             "tc" => typecheck_case(&p[1]),
+            "nq" => native_quota_case(p[1].parse().unwrap(), &p[2], &p[3], &p[4]),
             "rd" => refdecode_case(&p[1], &p[2], &p[3]),
             "rds" => refdecode_short(&p[1], &p[2], &p[3]),
             "h" => history_case(&p[1]),
@@ -288,6 +289,51 @@ fn native_case(k: usize, hexmsg: &str) -> String {
         32 => one!(Box<Option<u8>>),
         33 => one!(V3),
         34 => one!(Result<u8, candid::Empty>),
+        _ => "bad".to_string(),
+    }
+}
+
+// native decoding under quotas (vc/native_standin.py, quota part): "ok <re-encoded> | <decoding cost> <skipping cost>" / "err QUOTA" / "err"
+fn native_quota_case(k: usize, hexmsg: &str, dq: &str, sq: &str) -> String {
+    use candid::utils::decode_args_with_config_debug;
+    use candid::{DecoderConfig, Encode, Int, Nat};
+    use nat_ty::*;
+    use std::collections::BTreeMap;
+    let b = hexd(hexmsg);
+    let mut cfg = DecoderConfig::new();
+    if dq != "-" { cfg.set_decoding_quota(dq.parse().unwrap()); }
+    if sq != "-" { cfg.set_skipping_quota(sq.parse().unwrap()); }
+    fn fin(r: candid::Result<(String, DecoderConfig)>) -> String {
+        match r {
+            Ok((v, c)) => format!("ok {} | {} {}", v, c.decoding_quota.map(|x| x.to_string()).unwrap_or("-".into()), c.skipping_quota.map(|x| x.to_string()).unwrap_or("-".into())),
+            Err(e) => { let m = format!("{:?}", e); if m.contains("exceeds the limit") { "err QUOTA".to_string() } else { "err".to_string() } }
+        }
+    }
+    macro_rules! one { ($t:ty) => { fin(decode_args_with_config_debug::<($t,)>(&b, &cfg).map(|((v,), c)| (hexe(&Encode!(&v).unwrap()), c))) } }
+    macro_rules! two { ($t:ty, $u:ty) => { fin(decode_args_with_config_debug::<($t, $u)>(&b, &cfg).map(|((v, w), c)| (hexe(&Encode!(&v, &w).unwrap()), c))) } }
+    match k {
+        0 => one!(Vec<u8>),
+        1 => one!(Vec<Option<i32>>),
+        2 => one!(Option<Vec<u16>>),
+        3 => one!(R1),
+        4 => one!(V1),
+        5 => one!(BTreeMap<String, u32>),
+        6 => one!(BTreeMap<u8, Vec<u8>>),
+        7 => two!(Int, Nat),
+        8 => one!(Vec<Int>),
+        9 => one!(Vec<Nat>),
+        11 => one!(List),
+        13 => one!(Result<u8, String>),
+        14 => one!(Option<Option<u8>>),
+        15 => one!(Vec<Vec<u8>>),
+        17 => one!(R2),
+        18 => two!(bool, String),
+        19 => one!(Vec<(u16, Option<String>)>),
+        21 => one!(V2),
+        23 => two!(Vec<u64>, Vec<i16>),
+        24 => one!(Option<Box<List>>),
+        25 => one!(Vec<()>),
+        33 => one!(V3),
         _ => "bad".to_string(),
     }
 }
